@@ -53,15 +53,20 @@ KF_C17     == (At("hang") /\ KnownHang(E)) => PrintT(<<"KNOWN-FINDING", "C17", "
 (* C18                                                                      *)
 (***************************************************************************)
 \* no frame contains the address of a responding hop with TTL <= n; the source address is hidden
+\* (`found`: hops one of whose addresses other than the target's own address is on screen)
 C18_Hidden == At("frame") /\ E.privacy >= 0 =>
     /\ \A t \in SetOf(E.found) : t > E.privacy
     /\ ~E.src_found
+\* F13: the header always shows the address of the target the user asked for, also when the privacy level
+\* covers the hop at which the target answers (`tfound`: hops holding the target's address while it is on screen)
+KF_C18 == (At("frame") /\ E.privacy >= 0 /\ \E t \in SetOf(E.tfound) : t <= E.privacy)
+             => PrintT(<<"KNOWN-FINDING", "C18", "F13", l - 1>>)
 \* hops above n are shown normally: checked on frames where the table is certainly on screen and complete
 \* (large terminal, no dialog or alternative view, at most 6 hops, IP shown, addresses not limited)
 TableVisible(f) == /\ f.w >= 120 /\ f.h >= 50 /\ ~f.show_help /\ ~f.show_settings /\ ~f.show_details /\ ~f.show_chart /\ ~f.show_map
                    /\ f.hop_count >= 0 /\ f.hop_count <= 6 /\ f.amode \in {"Ip", "Both"} /\ f.max_addrs = -1 /\ f.flow = 0 /\ f.default_cols
 C18_Shown == At("frame") /\ TableVisible(E) =>
-    \A t \in SetOf(E.resp) : (t > E.privacy) => t \in SetOf(E.found)
+    \A t \in SetOf(E.resp) : (t > E.privacy) => t \in SetOf(E.found) \cup SetOf(E.tfound)
 \* expanding / contracting from the keyboard moves n by exactly one step between off, 0 and the hop count
 C18_Step == (At("frame") /\ prev.e = "frame" /\ ~prev.show_help /\ ~prev.show_settings) =>
     /\ E.key = "expand_privacy" =>
